@@ -64,6 +64,13 @@ def roles(P):
             r['remove'].append(f)
         if kinds == {'null'}:
             r['clear'].append(f)
+    if not r['clear']:
+        # the table may be emptied wholesale (memset) instead of slot by slot: the clearing function is then the one that resets the glyph count
+        for f in u.functions.values():
+            if f in r['insert'] or f in r['remove'] or any(c.callee in ('malloc', 'calloc') for c in f.calls()):
+                continue            # the constructor zeroes a fresh table
+            if any(k == 'set' and d == 0 for ups_ in _counter_updates(f).values() for k, d, x in ups_) and any((c.callee or '').startswith('llvm.memset') and f.last_field(f.path(c.a[0])) == 'pixman_glyph_cache_t.glyphs' for c in f.calls()):
+                r['clear'].append(f)
     for k, v in r.items():
         if len(v) != 1:
             raise AnalysisBroken('glyph table role %s matched %s' % (k, [g.name for g in v]))
@@ -208,6 +215,9 @@ def r2_counters_pair(ck, P):
     for x in f.insts():
         if x.op == 'icmp' and x.pred in ('slt', 'ult') and x.a[1][0] == 'c' and int(x.a[1][1]) == C['HASH_SIZE']:
             loop_ok = True
+    for c in f.calls():
+        if (c.callee or '').startswith('llvm.memset') and f.last_field(f.path(c.a[0])) == 'pixman_glyph_cache_t.glyphs' and c.a[1][0] == 'c' and int(c.a[1][1]) == 0 and c.a[2][0] == 'c' and int(c.a[2][1]) == C['HASH_SIZE'] * 8:
+            loop_ok = True                # the whole table zeroed at once
     if loop_ok:
         ck.ok(R, 'clear: visits all HASH_SIZE slots')
     else:
@@ -314,3 +324,60 @@ def r4_insert_protocol(ck, P):
         ck.ok(R, 'destroy requires freeze_count == 0')
     else:
         ck.violation(R, des.name, 'freeze guard', 'the cache can be destroyed while frozen', '%s:%d' % (des.unit.name, des.line))
+
+
+def r5_component_alpha_siblings(ck, P):
+    """sibling agreement: where the glyph code decides that a format carries per-channel alpha"""
+    R = ck.rule('C17-R5', 'every place in the glyph code that switches component alpha on for an image decides so with the same predicate on the image format (structurally equal guards): the mask built by pixman_composite_glyphs and the glyph images cached by insert agree on which formats are component-alpha', floor=2)
+    u = P.units.get('pixman-glyph.c')
+    sites = []
+    for f in u.functions.values():
+        for c in f.calls():
+            if c.callee == 'pixman_image_set_component_alpha' and len(c.a) >= 2 and c.a[1][0] == 'c' and int(c.a[1][1]) != 0:
+                sites.append((f, c))
+    if len(sites) < 2:
+        ck.incomplete(R, 'expected at least two places that switch component alpha on in pixman-glyph.c, found %d' % len(sites)); return
+
+    def sig(f, o, d=0):
+        if o[0] == 'c':
+            return str(int(o[1]))
+        if o[0] == 'a':
+            return 'F'
+        if o[0] != 'v' or d > 12:
+            return '?'
+        x = f.by_id[o[1]]
+        if x.op == 'load':
+            return 'F'
+        if x.op in ('zext', 'sext', 'trunc', 'freeze'):
+            return sig(f, x.a[0], d + 1)
+        if x.op == 'phi':
+            return 'phi(' + ','.join(sorted(sig(f, a, d + 1) for a in x.a)) + ')'
+        parts = [sig(f, a, d + 1) for a in x.a]
+        if x.op in ('and', 'or', 'add', 'mul', 'xor'):
+            parts.sort()
+        return '(%s%s %s)' % (x.op, (' ' + x.d['p']) if x.op == 'icmp' else '', ' '.join(parts))
+
+    sigs = []
+    for f, c in sites:
+        ck.saw(f)
+        g = set()
+        for t, s_ in f.guard_edges(c.bb.id):
+            if t.op != 'br' or not t.a:
+                continue
+            cc, pred, ops = f.cond(t.a[0])
+            if cc is None or cc.op != 'icmp':
+                continue
+            sg = '%s %s' % (pred, ' '.join(sorted(sig(f, o) for o in ops)))
+            if 'F' not in sg or not ('(and' in sg or '(lshr' in sg):
+                continue                       # not a test of bit fields of the format code
+            taken_true = t.d['succ'][0] == s_
+            g.add(('' if taken_true else 'not ') + sg)
+        sigs.append(frozenset(g))
+    ref = sigs[0]
+    for (f, c), g in zip(sites, sigs):
+        if g == ref and g:
+            ck.ok(R, '%s: component alpha under %s' % (f.name, sorted(g)))
+        elif not g:
+            ck.violation(R, f.name, 'component-alpha predicate', '%s switches component alpha on without testing the format at all' % f.name, c.loc())
+        else:
+            ck.violation(R, f.name, 'component-alpha predicate', '%s decides component alpha with %s, but %s uses %s: the two disagree on some formats (e.g. an sRGB or other format type one predicate knows and the other does not), so glyphs and the mask they are accumulated into are combined differently' % (f.name, sorted(g), sites[0][0].name, sorted(ref)), c.loc())
